@@ -17,12 +17,14 @@ package gentoo
 //@ spec wf(v *Version) bool = v.suffix == "" || (has(suffixValues, v.suffix) && suffixValues[v.suffix] != 0)
 
 //@ func (*Ecosystem).NewVersion
+//@   ensures text: result1 == nil ==> result0.original == arg1 || result0.original == strings.TrimSpace(arg1)   [C18]
 //@   ensures xor: (result0 != nil) == (result1 == nil)
 //@   ensures wf: result1 == nil ==> wf(result0)          [C01]
 
 // ---- constructors: value xor error (C06); the fact is structural (untagged) because callers rely on it
 
 //@ func (*Ecosystem).NewVersionRange
+//@   ensures text: result1 == nil ==> result0.original == arg1 || result0.original == strings.TrimSpace(arg1)   [C18]
 //@   ensures xor: (result0 != nil) == (result1 == nil)
 
 // ---- ranges (C02: a comparator holds exactly when Compare says so; C20: membership depends only on order position)
@@ -45,3 +47,11 @@ package gentoo
 
 //@ lemma c20-equal [C20]: forall c *constraint, v1, v2 *Version :: trigger(c.matches(v1), c.matches(v2)) && c != nil && c.version != nil && v1 != nil && v2 != nil && (c.operator == "=" || c.operator == "!=" || c.operator == "<" || c.operator == "<=" || c.operator == ">" || c.operator == ">=") && v1.Compare(v2) == 0 ==> c.matches(v1) == c.matches(v2)
 //@ lemma c20-convex [C20]: forall c *constraint, a, b, d *Version :: trigger(c.matches(a), c.matches(d), a.Compare(b), b.Compare(d)) && c != nil && c.version != nil && a != nil && b != nil && d != nil && (c.operator == "=" || c.operator == "!=" || c.operator == "<" || c.operator == "<=" || c.operator == ">" || c.operator == ">=") && c.operator != "!=" && a.Compare(b) <= 0 && b.Compare(d) <= 0 && c.matches(a) && c.matches(d) ==> c.matches(b)
+
+// ---- stored text (C18)
+
+//@ func (*Version).String
+//@   ensures text: result == arg0.original   [C18]
+
+//@ func (*VersionRange).String
+//@   ensures text: result == arg0.original   [C18]
